@@ -198,6 +198,7 @@ def trees(tier):
         t += S.D3_quick() + S.D3flow() + S.D3()
     else:
         t += S.D3flow()[:10]
+    t += S.DX()
     seen, out = set(), []
     for s in t:
         k = S.key(s)
